@@ -64,3 +64,92 @@ pub mod poly {
         crate::polynomial::poly_deg(p)
     }
 }
+
+/// Interception of the private layers of the differential-privacy samplers.
+///
+/// A checker installs a thread-local interceptor; each sampler layer consults it first with its
+/// arguments and, if the interceptor supplies an outcome, returns that outcome instead of running.
+pub mod dp {
+    use num_bigint::{BigInt, BigUint};
+    use num_rational::Ratio;
+    use std::cell::RefCell;
+
+    /// A sampler layer being entered, with its arguments.
+    #[derive(Clone, Debug, PartialEq, Eq)]
+    pub enum Layer {
+        /// Uniform integer in `[low, high)`.
+        Uniform {
+            /// inclusive lower bound
+            low: BigUint,
+            /// exclusive upper bound
+            high: BigUint,
+        },
+        /// Bernoulli(gamma)
+        Bernoulli(Ratio<BigUint>),
+        /// Bernoulli(exp(-gamma)), gamma in [0, 1]
+        BernoulliExp1(Ratio<BigUint>),
+        /// Bernoulli(exp(-gamma))
+        BernoulliExp(Ratio<BigUint>),
+        /// Geometric(1 - exp(-gamma))
+        GeometricExp(Ratio<BigUint>),
+        /// Discrete Laplace with the given scale
+        Laplace(Ratio<BigUint>),
+    }
+
+    /// An outcome supplied by the interceptor.
+    #[derive(Clone, Debug, PartialEq, Eq)]
+    pub enum Answer {
+        /// for `Uniform` and `GeometricExp`
+        Big(BigUint),
+        /// for the Bernoulli layers
+        Bool(bool),
+        /// for `Laplace`
+        Int(BigInt),
+    }
+
+    type Interceptor = Box<dyn FnMut(&Layer) -> Option<Answer>>;
+
+    thread_local! {
+        static INTERCEPTOR: RefCell<Option<Interceptor>> = const { RefCell::new(None) };
+    }
+
+    /// Run `body` with `interceptor` installed on this thread.
+    pub fn with_interceptor<T>(
+        interceptor: impl FnMut(&Layer) -> Option<Answer> + 'static,
+        body: impl FnOnce() -> T,
+    ) -> T {
+        struct Reset;
+        impl Drop for Reset {
+            fn drop(&mut self) {
+                INTERCEPTOR.with(|i| *i.borrow_mut() = None);
+            }
+        }
+        INTERCEPTOR.with(|i| *i.borrow_mut() = Some(Box::new(interceptor)));
+        let _reset = Reset;
+        body()
+    }
+
+    pub(crate) fn intercept(layer: Layer) -> Option<Answer> {
+        INTERCEPTOR.with(|i| {
+            // Take the interceptor out while it runs so that a re-entrant sampler call made by the
+            // interceptor itself is not intercepted.
+            let taken = i.borrow_mut().take();
+            match taken {
+                None => None,
+                Some(mut f) => {
+                    let r = f(&layer);
+                    let mut slot = i.borrow_mut();
+                    if slot.is_none() {
+                        *slot = Some(f);
+                    }
+                    r
+                }
+            }
+        })
+    }
+
+    pub use crate::dp::distributions::verif::{
+        bernoulli, bernoulli_exp, bernoulli_exp1, discrete_gaussian, discrete_laplace,
+        geometric_exp, uniform,
+    };
+}
